@@ -1,12 +1,13 @@
 """C13 — fuel gives every render a fixed, exact success threshold (DESIGN.md §3 C13)."""
-import json, collections
+import json, collections, os, re
 
 READY = True
 
 META = {
-    "technique": "Lean 4 proof (generic interpreter loop around the fuel tracker: non-interference, call trees, trace model, every u64 "
-                 "budget) + cost table, tracker-use list and track site regenerated from the sources + differential runs on real "
-                 "instruction traces",
+    "technique": "Lean 4 proof (generic interpreter loop around the fuel tracker: non-interference, call trees with a tracker policy per "
+                 "nested activation, structured programs whose trace and cost are functions of the data, every u64 budget) + total "
+                 "cost table, tracker/State creation sites, nested-evaluation functions, tracker-use list and track site regenerated "
+                 "from the sources + differential runs on real instruction traces",
     "category": "proof",
     "text": "Kernel-checked theorems. (1) Trace level: model of FuelTracker::{new,track,remaining,consumed}; for every executed "
             "instruction trace and every budget B < 2^64 there is one threshold thr(trace) (0 if nothing is charged, total cost + 1 "
@@ -19,10 +20,29 @@ META = {
             "below thr it is out-of-fuel (fuel_does_not_steer, machine_threshold_exact). (3) Nesting: interpreter activations that "
             "start nested activations sharing the tracker (macro, include, block, super, render_block/call_macro) are modelled as "
             "call trees of arbitrary depth; running over the tree = running over its flattened trace (call_tree_flattens), and the "
-            "nested machine has the threshold of the flattened tree (nested_threshold_exact). (4) out_of_fuel_is_sticky: after an "
+            "nested machine has the threshold of the flattened tree (nested_threshold_exact). one_tracker_per_render: call trees "
+            "whose nested activations carry a policy (share the caller's tracker / run on a fresh one / restore the caller's level "
+            "afterwards) account like the flattened trace when every activation shares; second_tracker_breaks_accumulation: one "
+            "fresh or restoring activation makes a budget below the threshold succeed and the reported consumption too small. That "
+            "every activation shares is tied to the sources by tracker_sites_as_modelled (regenerated table of every State / "
+            "FuelTracker struct literal, State::new / new_for_env / vm::eval / Executor::eval call, FuelTracker::new, every "
+            "assignment, method call, mutable borrow, mem::replace/take/swap of fuel_tracker, every overwrite of a whole State and "
+            "the derives/Clone/Copy/Default impls of both types: the only constructor of a State is State::new, its only callers are "
+            "the documented roots Executor::eval (a render / expression evaluation), Template::new_state and State::new_for_env <- "
+            "Environment::empty_state, the only FuelTracker::new is in State::new, the only other touch is the mutable borrow in "
+            "eval_impl, neither type can be cloned) and nested_evaluations_share_state (the 22 functions through which a nested "
+            "evaluation is entered — State::{render_block, render_block_to_write, call_macro, apply_filter, perform_test, format, "
+            "with_execution_state, with_auto_escape}, Captured::with_state_mut, vm::{call_block, eval_macro}, Executor::{eval_macro, "
+            "eval_state, do_eval, eval_impl, perform_include, perform_super, call_block}, Macro::call, Value::{call, call_method}, "
+            "Environment::format — take the State by &mut, contain no creation, render or tracker token, and reach the single "
+            "charge site eval_impl). (4) out_of_fuel_is_sticky: after an "
             "out-of-fuel the tank is and stays empty, so after a Rust callback swallowed the error every later charged instruction "
-            "is refused again; zero_budget_refuses. (5) Source ties proved by decide against tables regenerated on every run: the "
-            "per-instruction cost table; uses_as_modelled (every occurrence of fuel_tracker / FuelTracker / fuel_levels / .track( / "
+            "is refused again; zero_budget_refuses. (5) cost_table_total: the Instruction enum (every variant with its #[cfg]) and "
+            "the arms of fuel_for_instruction (with their #[cfg]s) are regenerated; under each of the 4 feature sets over {macros, "
+            "multi_template} every arm that is compiled names a variant that exists, every variant has exactly one row, every cost is "
+            "0 or 1, the cost of a variant is the same in every configuration in which it exists and equals the model's costOf; "
+            "cost_at_most_one (thr <= length of the trace + 1). Further source ties proved by decide against regenerated tables: "
+            "uses_as_modelled (every occurrence of fuel_tracker / FuelTracker / fuel_levels / .track( / "
             ".remaining() / .consumed() / .fuel() / set_fuel / State::new( in minijinja/src and minijinja-contrib/src outside "
             "vm/fuel.rs is one of: Environment configuration, State::new creating it from env.fuel(), the single borrow+track in "
             "eval_impl, State::fuel_levels — no copy, restore or other reader); track_before_dispatch (loop, fetch, hook, borrow, "
@@ -37,38 +57,72 @@ META = {
             "fresh tracker) and render_threshold_exact. (8) The error on its way up: wrappers_preserve_out_of_fuel / "
             "wrapper_kinds_come_from_frames (through any number of frames that propagate or wrap-keeping-source, the root cause stays "
             "OutOfFuel and the kinds around it are those of the wrapping frames; a replacing frame destroys it) tied by "
-            "error_consumers_keep_source: the regenerated table of every map_err/.ok()/unwrap_or*/or_else/is_err/if let Err/Err(_)/"
+            "error_consumers_keep_source: the regenerated table of every map_err/.ok()/unwrap_or*/or_else/or/map_or*/is_err/if let Err/if let Ok/Err(_)/"
             "Err(e)=> in minijinja/src whose consumed value comes from a call that gets the State or starts an evaluation (or is "
             "unresolved) shows only: propagate, wrap keeping the source (exactly perform_include and perform_super), or the writer's "
-            "I/O error taking precedence. The differential tie runs ~2900 (quick) / ~26000 (thorough) "
-            "programs on the real engine (loops, macros, call blocks, imports, includes, inheritance, super, self.block, "
+            "I/O error taking precedence. (9) Programs with data-dependent loops and errors: structured programs (instructions, "
+            "instructions that fail when the data says so, sequences, for loops in the compiler's instruction shape whose trip "
+            "count is a function of the context and of the iteration path of the enclosing loops): the executed trace `exec` and the "
+            "cost `cost` are defined on the program, prog_cost_is_total (cost = total of the trace, computed without building it), "
+            "prog_threshold_exact (cost + 1 is the threshold for every context and every u64 budget), uniform_loop_cost_linear "
+            "(head + n * (iteration) + exit with n from the context), error_threshold_exact (a render that ends with an error of "
+            "its own ends with that error, after the same instructions and the same consumption, at every budget at or above its "
+            "threshold, and out of fuel below). The differential tie runs ~4900 (quick) / ~28000 (thorough) "
+            "programs on the real engine in 8 parallel shards (loops, macros, call blocks, imports, includes, inheritance, super, self.block, "
             "render_block/call_macro/Value::call from Rust, every nested-evaluation edge in emit position and 12 expression/captured "
-            "positions, Rust callbacks that swallow the error of a nested evaluation, failing renders, expressions, random "
-            "compositions): executed trace through a verif_hooks callback, threshold by bisection, every budget in [0, thr+8] and "
-            "2^31, 2^32, 2^63-1, 2^63, 2^63+1, 2^64-2, 2^64-1 through render_captured, compared with the model (outcome, "
+            "positions, each also with nothing following it (an engine that drops the error of a nested evaluation is only visible "
+            "when nothing that costs fuel follows), include/import forms (ignore missing, list of choices, dynamic name, with context, "
+            "import, from-import with code at module level) x 7 surroundings x {code follows, nothing follows}, Rust callbacks that "
+            "swallow the error of a nested evaluation, failing renders, expressions, programs whose data is much larger than their "
+            "instruction count, random compositions): executed trace through a verif_hooks callback, threshold by bisection, every "
+            "budget in [0, thr+8] and 2^16-1, 2^16, 2^16+1, 2^24, 2^31-1, 2^31, 2^32-1, 2^32, 2^32+1, 2^53+1, 2^63-1, 2^63, 2^63+1, "
+            "2^64-2, 2^64-1 through render_captured, compared with the model (outcome, "
             "fuel_levels, number of dispatched instructions, levels seen by probe() inside nested evaluations, empty tank after a "
-            "swallowed error). Re-entering programs reach nested evaluations through select/reject/selectattr/rejectattr/map with Rust "
+            "swallowed error). API stream: every public method of State (env, name, auto_escape, undefined_behavior, current_block, "
+            "lookup, exports, known_variables, get_template, fuel_levels, temps, extensions, call_macro, render_block, "
+            "render_block_to_write, apply_filter, perform_test, format, Value::call, call_method) is called from a Rust function "
+            "inside the running render in 8 places (top level, loop, macro, include, block, parent block under a captured super(), "
+            "call block, set block) x 3 positions with the levels read right before and after, after the render on the captured "
+            "state (Captured::with_state_mut, sequences of all methods and each evaluating method three times), and on stand-alone "
+            "states (Template::new_state, Environment::empty_state) whose levels are read after failures too; the model predicts "
+            "every level from the executed trace. Retry stream: a callback that recovers from a failing nested evaluation by starting "
+            "another one through each evaluating method: after an out-of-fuel the second must be refused. Re-entering programs reach "
+            "nested evaluations through select/reject/selectattr/rejectattr/map with Rust "
             "tests and filters that call call_macro/render_block, `is` tests, filter blocks, State::apply_filter/perform_test, object "
-            "calls and methods and a custom formatter, in 5 positions with the work parameter: every budget in the band where the "
+            "calls and methods, the unknown-method callback, a custom formatter (from emits and from join under auto-escape), in 5 "
+            "positions with the work parameter: every budget in the band where the "
             "tank empties inside must give an error whose root cause is OutOfFuel with only BadInclude/EvalBlock wrappers around it. "
+            "Structured stream: for programs with loops over the data (flat, two in a row, nested two and three levels with "
+            "inner counts depending on the outer item, divisions that fail for some item) the compiled instruction list with its "
+            "jump targets is converted to the structured model, which must predict the executed trace, the threshold and every "
+            "outcome from the code and the data alone. "
             "Observer programs put debug(), debug(x), Debug of State/Environment through Rust callables, self, loop, "
             "namespace(), macro and module objects into the output, the Debug form of the Captured is part of every result and all "
             "text forms (Display, alternate Display, Debug, source chain) of non-fuel errors are compared with the unlimited run. For "
-            "~600 programs every entry point (render, render_captured_to, render_str, render_named_str, template_from_str, "
+            "~700 programs every entry point (render, render_captured_to, render_str, render_named_str, template_from_str, "
             "template_from_named_str, Expression, clone, clone then change the original, set other then this, set then None, "
             "new_state().render_block) and 8 environment variants (debug off, undefined modes, custom formatter, auto-escape on/off, "
             "whitespace control, recursion limit) are checked for the same budget semantics, with the variants and blocks also run "
-            "through the model. The oracle checks the property itself on the engine's results.",
+            "through the model; wherever a state comes back with a budget configured it must report levels. Feature matrix: "
+            "minijinja is compiled with fuel and each subset of {macros, multi_template}. The oracle checks the property itself on "
+            "the engine's results.",
     "design_ref": "DESIGN.md §3 C13",
     "level_note": "Trusted: Lean kernel; the hand transcription of the four FuelTracker methods into MJ/Model/Fuel.lean (validated on "
                   "every scanned budget incl. the u64 extremes and budget 0); lib/tables/c13.py (regex extraction of the cost table, "
-                  "the tracker uses and the eval_impl landmarks); the verif_hooks instruction callback (cross-checked against the "
-                  "compiled instruction list for straight-line templates). The concrete VM state and dispatch are not transcribed: "
+                  "the Instruction enum, the tracker/State sites, the nested-evaluation functions, the tracker uses and the "
+                  "eval_impl landmarks); the verif_hooks instruction callback (cross-checked against the "
+                  "compiled instruction list for straight-line templates and, with jump targets, for the structured programs). The "
+                  "concrete VM state and dispatch are not transcribed: "
                   "they are covered by the universally quantified machine theorems, whose only hypothesis about the real code — the "
                   "dispatch does not read or write the tracker and nested activations get the same State — is tied by "
-                  "uses_as_modelled/track_before_dispatch and additionally validated on every scanned run (limited run = prefix of "
-                  "the unlimited trace). User callbacks can read State::fuel_levels (public API) and can swallow errors; the first "
+                  "uses_as_modelled/track_before_dispatch/tracker_sites_as_modelled/nested_evaluations_share_state and additionally "
+                  "validated on every scanned run (limited run = prefix of "
+                  "the unlimited trace). The structured-program model covers for loops without else/filter/break/recursion and "
+                  "one kind of failing instruction; other control flow is covered by the machine theorems only. "
+                  "User callbacks can read State::fuel_levels (public API) and can swallow errors; the first "
                   "is outside the model (the harness's probe() does it without steering), for the second only stickiness is claimed. "
+                  "A Rust callback that renders another template (state.get_template(..)?.render(..)) starts a render of its own "
+                  "with its own tracker (documented root Executor::eval); not exercised. "
                   "Reading of 'fails with an out-of-fuel error': the root cause of the reported error (source() chain) is OutOfFuel "
                   "and only the engine's nesting wrappers BadInclude / EvalBlock are around it.",
 }
@@ -113,6 +167,13 @@ def driver_input(progs):
         budgets = ",".join(str(r[0]) for r in res["runs"])
         ks = ",".join(str(pr[0]) for pr in res["probes"])
         lines.append(f"{i}\t{budgets}\t{res['pb']}\t{ks}\t{res['trace']}")
+        if p.get("skel") and res.get("static_full"):
+            try:
+                toks = skel_tokens(res["static_full"])
+                counts, fails = skel_tables(p["ctx"], p["skel"])
+                lines.append(f"S\t{i}.s\t{budgets}\t{counts}\t{fails}\t{' '.join(toks)}")
+            except (ValueError, KeyError, TypeError, IndexError):
+                pass  # reported by check_program: no model line
         for j, b in enumerate(res.get("blocks", [])):
             if b["runs"]:
                 lines.append(f"{i}.b{j}\t{','.join(str(r[0]) for r in b['runs'])}\t0\t\t{b['trace']}")
@@ -123,17 +184,98 @@ def driver_input(progs):
     return "\n".join(lines) + "\n"
 
 
-def check_side_runs(r, case, label, thr, runs, model, unl_ok, has_levels=True):
-    """oracle + correspondence for a short list of runs [B, tag, c, rem, n, mismatch] of one evaluation"""
+
+# ---------------------------------------------------------------- structured programs (MJ.Fuel.P)
+def skel_tokens(static_full):
+    """compiled instruction list with jump targets -> prefix tokens of MJ.Fuel.P (loops and fallible
+    instructions numbered in source order); ValueError for control flow outside the fragment"""
+    names = [x["op"] for x in static_full]
+    args = [x.get("arg") for x in static_full]
+    ids = {"loop": 0, "fail": 0}
+
+    def parse(i, end):
+        toks = []
+        while i < end:
+            op = names[i]
+            if op == "PushLoop":
+                if not (i + 1 < end and names[i + 1] == "Iterate"):
+                    raise ValueError("PushLoop without Iterate")
+                x = args[i + 1]
+                if not (isinstance(x, int) and x <= end and names[x - 1] == "Jump" and args[x - 1] == i + 1 and names[x] == "PopLoopFrame"):
+                    raise ValueError("loop layout")
+                lid = ids["loop"]
+                ids["loop"] += 1
+                body = parse(i + 2, x - 1)
+                toks += ["L", str(lid), "1", "1", "1", "1", "PushLoop", "Iterate", "Jump", "Iterate"] + body + ["E"]
+                i = x
+            elif op == "IntDiv":
+                toks += ["F", op, str(ids["fail"])]
+                ids["fail"] += 1
+                i += 1
+            elif op in CONTROL or op in ("Iterate", "PopLoopFrame") and False:
+                raise ValueError("control flow outside the structured fragment: " + op)
+            else:
+                toks += ["I", op]
+                i += 1
+        return toks
+    return parse(0, len(names))
+
+
+def skel_tables(ctx, skel):
+    """trip count of every loop and failing of every fallible instruction per iteration path"""
+    def nodes(v, depth, path=()):
+        if depth == 0:
+            yield path, v
+        elif isinstance(v, list):
+            for i, x in enumerate(v):
+                yield from nodes(x, depth - 1, path + (i,))
+    counts, fails = [], []
+    for lid, (root, depth) in enumerate(skel["loops"]):
+        for path, node in nodes(ctx[root], depth):
+            counts.append(f"{lid}:{'.'.join(map(str, path))}:{len(node)}")
+    for fid, (root, depth) in enumerate(skel["fails"]):
+        for path, node in nodes(ctx[root], depth):
+            if node == 0:
+                fails.append(f"{fid}:{'.'.join(map(str, path))}")
+    return ";".join(counts), ";".join(fails)
+
+
+def check_structured(r, case, p, res, m):
+    """engine vs the structured model: the model predicts the executed trace, the cost and every outcome
+    from the compiled instruction list and the data alone"""
+    r.hist["checks"]["structured_programs"] += 1
+    mthr, mcost, mruns, mend, mtrace = m
+    if res["trace"].split() != mtrace:
+        r.model_disagreement(case, "executed trace " + res["trace"][:200], "structured model: " + " ".join(mtrace)[:200])
+    unl = res["unl"]["t"]
+    if (unl == "ok") != (mend == "ok"):
+        r.model_disagreement(case, f"unlimited render ends {unl}", f"structured model: {mend}")
+    if res.get("thr") != mthr:
+        r.model_disagreement(case, f"thr={res.get('thr')}", f"structured model: thr={mthr} (cost {mcost} as a function of the data)")
+    for (b, tag, c, rem, n, *_), (mb, mst, mc, mr, mn) in zip(res.get("runs", []), mruns):
+        st = ("ok" if unl == "ok" else "ownError") if tag == "same" else "OutOfFuel" if is_out_of_fuel(tag) else tag
+        impl = (b, st, n - 1 if st == "OutOfFuel" else n)
+        if impl != (mb, mst, mn):
+            r.model_disagreement(case, f"run {impl}", f"structured model: {(mb, mst, mn)}")
+        if c is not None and (c, rem) != (mc, mr):
+            r.model_disagreement(case, f"budget {b}: levels {(c, rem)}", f"structured model: {(mc, mr)}")
+
+
+def check_side_runs(r, case, label, thr, runs, model, unl_ok, has_levels=False, survives=False):
+    """oracle + correspondence for a short list of runs [B, tag, c, rem, n, mismatch] of one evaluation;
+    has_levels: the entry point hands the state back on success, so with a budget configured it must
+    report levels; survives: the caller holds the state, levels are read after failures too"""
     cons = set()
     for (b, tag, c, rem, n, mismatch) in runs:
+        if c is not None and c + rem != b:
+            r.oracle_failure(case, f"{label}: budget {b}: fuel_levels = ({c}, {rem}) do not add up", f"{label}:levels-sum")
+        if (survives or (has_levels and tag == "same" and unl_ok)) and c is None:
+            r.oracle_failure(case, f"{label}: budget {b} configured but the state reports no fuel levels (fuel_levels() = None): the evaluation is not metered", f"{label}:levels-missing")
         if b < thr and not is_out_of_fuel(tag):
             r.oracle_failure(case, f"{label}: budget {b} < threshold {thr}: {tag[:160]} instead of out-of-fuel", f"{label}:below:{tag.split(':')[0]}")
         if b >= thr and tag != "same":
             r.oracle_failure(case, f"{label}: budget {b} >= threshold {thr}: {tag[:160]} instead of the unlimited result", f"{label}:above:{':'.join(tag.split(':')[:2])}")
         if tag == "same" and c is not None:
-            if c + rem != b:
-                r.oracle_failure(case, f"{label}: budget {b}: fuel_levels = ({c}, {rem}) do not add up", f"{label}:levels-sum")
             cons.add(c)
     if len(cons) > 1:
         r.oracle_failure(case, f"{label}: consumed fuel depends on the budget: {sorted(cons)[:4]}", f"{label}:consumed-varies")
@@ -170,7 +312,7 @@ def check_extras(r, case, p, res, models, idx, thr, main_consumed):
                 if tag != "same" or c is not None:
                     r.oracle_failure(case, f"set_fuel(Some({b})) followed by set_fuel(None): {tag[:120]} / levels {c} instead of an unmetered render", "config:set-none-still-metered")
             continue
-        cons = check_side_runs(r, case, "entry:" + name, thr, e["runs"], None, unl_ok)
+        cons = check_side_runs(r, case, "entry:" + name, thr, e["runs"], None, unl_ok, has_levels=e.get("lv", False))
         if cons and main_consumed is not None and cons != {main_consumed}:
             r.oracle_failure(case, f"entry point {name} consumes {sorted(cons)} but render_captured {main_consumed}", "entry:" + name + ":consumption-differs")
         for (b, tag, c, rem, n, mismatch) in e["runs"]:
@@ -182,14 +324,14 @@ def check_extras(r, case, p, res, models, idx, thr, main_consumed):
             r.oracle_failure(case, f"new_state().render_block({b['name']}): no budget up to 2^22 reproduces the unmetered result", "entry:render_block:no-threshold")
             continue
         r.count(case + "block" + b["name"], b["thr"] > 0, n=len(b["runs"]))
-        check_side_runs(r, case, "entry:new_state.render_block", b["thr"], b["runs"], models.get(f"{idx}.b{j}"), True)
+        check_side_runs(r, case, "entry:new_state.render_block", b["thr"], b["runs"], models.get(f"{idx}.b{j}"), b.get("unl_ok", True), survives=True)
     for j, v in enumerate(res.get("variants", [])):
         r.hist["env_variant"][v["name"] + (":same-trace" if v["same_trace"] else ":other-trace")] += 1
         if v["thr"] is None:
             r.oracle_failure(case, f"environment variant {v['name']}: no budget up to 2^22 reproduces the unlimited result", f"variant:{v['name']}:no-threshold")
             continue
         r.count(case + "variant" + v["name"], v["thr"] > 0, n=len(v["runs"]))
-        cons = check_side_runs(r, case, "variant:" + v["name"], v["thr"], v["runs"], models.get(f"{idx}.v{j}"), unl_ok)
+        cons = check_side_runs(r, case, "variant:" + v["name"], v["thr"], v["runs"], models.get(f"{idx}.v{j}"), v.get("unl_ok", unl_ok), has_levels=p["mode"] == "template")
         if v["same_trace"]:
             if v["thr"] != thr:
                 r.oracle_failure(case, f"environment variant {v['name']} executes the same instructions but has threshold {v['thr']} instead of {thr}", f"variant:{v['name']}:threshold-differs-for-same-trace")
@@ -230,7 +372,7 @@ def check_program(r, case, p, res, models, idx):
     nontrivial = thr > 0
     r.count(case, nontrivial, n=len(runs))
     # hook sanity: straight-line single templates execute exactly their compiled instruction list
-    if p["mode"] == "template" and res["ntemplates"] == 1 and res["static"] and not (set(res["static"]) & CONTROL) and unl["t"] == "ok":
+    if p["mode"] == "template" and not p.get("post") and res["ntemplates"] == 1 and res["static"] and not (set(res["static"]) & CONTROL) and unl["t"] == "ok":
         r.hist["checks"]["static==trace"] += 1
         if res["static"] != trace:
             r.broken.append(f"instruction hook: executed trace differs from the compiled instruction list for {p['id']}")
@@ -238,6 +380,9 @@ def check_program(r, case, p, res, models, idx):
     # ---------------- oracle ----------------
     consumed_ok = set()
     swallow = p.get("swallow", False)
+    mode = p["mode"]
+    standalone = mode in ("new_state", "empty_state")  # the state survives a failing call: levels are always read
+    r.hist["mode"][mode + ("+post" if p.get("post") and mode == "template" else "")] += 1
     for (b, tag, c, rem, n, mismatch, nprobes, pbad, pmono, swallowed, sticky_bad) in runs:
         if swallowed:
             r.hist["checks"]["runs_with_swallowed_error"] += 1
@@ -251,10 +396,12 @@ def check_program(r, case, p, res, models, idx):
         if b >= thr and tag != "same":
             t0 = ":".join(tag.split(":")[:2])
             r.oracle_failure(case, f"budget {b} >= threshold {thr}: {tag[:200]} instead of the unlimited result", f"above:{t0}:{brange(b)}")
-        if tag == "same" and unl["t"] == "ok" and p["mode"] == "template":
-            if c is None or c + rem != b:
+        if standalone or (tag in ("same", "diff-captured-debug") and unl["t"] == "ok" and mode == "template"):
+            if c is None:
+                r.oracle_failure(case, f"budget {b} configured but the state reports no fuel levels (fuel_levels() = None): the evaluation is not metered", f"levels-missing:{mode}")
+            elif c + rem != b:
                 r.oracle_failure(case, f"budget {b}: fuel_levels = ({c}, {rem}) do not add up to the budget", f"levels-sum:{brange(b)}")
-            else:
+            elif tag == "same":
                 consumed_ok.add(c)
         if pbad:
             r.oracle_failure(case, f"budget {b}: {pbad} of {nprobes} probe() calls saw levels that do not add up to the budget", f"probe-levels-sum:{brange(b)}:{where}")
@@ -274,6 +421,11 @@ def check_program(r, case, p, res, models, idx):
         r.oracle_failure(case, f"repeating the render with the same budget gives a different result/levels ({res['rep']})", "repeat")
 
     # ---------------- correspondence ----------------
+    if p.get("skel"):
+        if f"{idx}.s" in models:
+            check_structured(r, case, p, res, models[f"{idx}.s"])
+        else:
+            r.broken.append(f"structured program {p['id']}: the compiled instruction list is outside the modelled fragment")
     if model is None:
         return
     mthr, mtotal, mruns, mprobes = model
@@ -287,8 +439,12 @@ def check_program(r, case, p, res, models, idx):
         if tag == "diff-captured-debug":
             tag = "same"  # reported by the oracle; the accounting is compared as usual
         impl_st = "ok" if tag == "same" else "OutOfFuel" if is_out_of_fuel(tag) else tag
-        if tag == "same" and unl["t"] == "ok" and p["mode"] == "template":
+        if tag == "same" and c is not None and (unl["t"] == "ok" or standalone):
             impl = (b, "ok", c, rem, n)
+            mod = (mb, mst, mc, mr, mn)
+        elif standalone and impl_st == "OutOfFuel" and c is not None and not swallow:
+            # the stand-alone state survives the out-of-fuel error: its levels are the model's too
+            impl = (b, impl_st, c, rem, n - 1)
             mod = (mb, mst, mc, mr, mn)
         else:  # no state comes back from a failed render: compare the outcome and the dispatch count
             # the hook fires before the charge: on out-of-fuel the instruction whose charge failed
@@ -340,6 +496,14 @@ def parse_model(lines):
     out = {}
     for line in lines:
         f = line.split("\t")
+        if len(f) == 6:  # structured program: id thr cost runs ok|fail trace
+            runs = []
+            for x in f[3].split(","):
+                if x:
+                    b, st, c, rem, n = x.split(":")
+                    runs.append((int(b), st, int(c), int(rem), int(n)))
+            out[f[0]] = (int(f[1]), int(f[2]), runs, f[4], f[5].split())
+            continue
         if len(f) != 5:
             continue
         runs = []
@@ -356,6 +520,49 @@ def parse_model(lines):
     return out
 
 
+NSHARDS = 8
+FEATURE_SETS = (["fuel"], ["fuel", "macros"], ["fuel", "multi_template"], ["fuel", "macros", "multi_template"])
+
+
+def check_feature_matrix(r):
+    """configurations: the engine with `fuel` and every subset of the features that change the
+    Instruction enum must compile (the cost table names variants that only exist under some of them)"""
+    import common
+    env = dict(common.ENV)
+    env["CARGO_TARGET_DIR"] = os.path.join(common.BUILD, "cargo-c13cfg")
+    for fs in FEATURE_SETS:
+        name = ",".join(fs)
+        rc, out, err = common.sh(["cargo", "check", "--offline", "-q", "-p", "minijinja", "--no-default-features", "--features", name],
+                                 cwd=common.REPO, env=env, timeout=1800)
+        r.count("features:" + name, True)
+        r.hist["feature_set_builds"][name + (":ok" if rc == 0 else ":FAILS")] += 1
+        if rc != 0:
+            first = "; ".join(x.strip() for x in re.findall(r"^error.*(?:\n\s+-->.*)?", err, re.M)[:2])
+            r.oracle_failure("features=" + name, f"minijinja does not compile with --no-default-features --features {name}: "
+                             f"in this configuration no render has a fuel threshold at all ({first[:300]})", "feature-set-does-not-build:" + name)
+
+
+
+
+def run_sharded(r, exe):
+    """the harness processes program number i in shard i % NSHARDS; the shards run in parallel and
+    their lines are put back into program order (deterministic in VERIF_SEED)"""
+    import concurrent.futures
+    with concurrent.futures.ThreadPoolExecutor(NSHARDS) as ex:
+        res = list(ex.map(lambda k: r.harness(exe, ["gen", r.tier, str(k), str(NSHARDS)]), range(NSHARDS)))
+    for k, (rc, out, err) in enumerate(res):
+        if rc != 0:
+            r.broken.append(f"harness c13 (shard {k}) exited {rc}: {err[-300:]}")
+            return None
+    shards = [out.splitlines() for _, out, _ in res]
+    lines = []
+    for i in range(max(len(x) for x in shards)):
+        for sh in shards:
+            if i < len(sh):
+                lines.append(sh[i])
+    return "\n".join(lines) + "\n"
+
+
 def run(r):
     r.rule = ("fixed families (straight-line, branches, loops with 0..n iterations, macros/call blocks/imports/macros called from "
               "Rust, includes, inheritance with super()/self.block()/blocks in loops, failing renders, expressions; a matrix of nested-evaluation "
@@ -363,8 +570,12 @@ def run(r):
               "positions {emit, filter, set, concat, if, set block, filter block, list, test, ternary, with, argument, in a loop} and of "
               "include / call block / {{ super() }} statements x 8 surroundings {plain, set block, filter block, autoescape, loop, with, if, ...}; Rust "
               "callbacks try_macro/try_block/try_apply that swallow the nested error x 13 positions x 3 continuations) with a work "
-              "parameter k inside the nested evaluation, plus seeded random compositions; per program every budget in [0, thr+8] "
-              "and 7 extremes up to 2^64-1; an evaluation = one render with a budget; a program is non-trivial when its threshold > 0")
+              "parameter k inside the nested evaluation; the same matrices with nothing after the nested evaluation; include/import "
+              "forms x 7 surroundings x 2 tails; API stream {22 public State methods} x 8 places x 3 positions, retry stream, post-render "
+              "and stand-alone-state sequences; structured loop programs over data shapes; big-data programs; plus seeded random "
+              "compositions; per program every budget in [0, thr+8] "
+              "and 15 extremes up to 2^64-1; an evaluation = one render (or one sequence of State calls) with a budget; a program is "
+              "non-trivial when its threshold > 0; 4 feature-set builds")
     r.assumptions = ["Template borrows the Environment, so a template obtained before set_fuel cannot exist (borrow checker); "
                      "Template::new_state()/Environment::empty_state() create stand-alone metered states whose later render_block/"
                      "call_macro calls keep charging that state's tracker (one budget per State, not per call)",
@@ -372,14 +583,15 @@ def run(r):
                      "(limited run = prefix of the unlimited run) is validated on every scanned render, not proved",
                      "budgets between thr+8 and 2^31 and between the listed extremes behave like the model (proved for the model for every budget)",
                      "programs that panic or differ between two unlimited renders are outside the property (none generated)"]
-    r.regen_tables(["C13_FUEL_COSTS", "C13_FUEL_USES", "C13_TRACK_SITE", "C13_FUEL_READERS", "C13_ENTRY_CALLS", "C13_ERR_CONSUMERS"])
+    status = r.regen_tables(["C13_FUEL_COSTS", "C13_FUEL_USES", "C13_TRACK_SITE", "C13_FUEL_READERS", "C13_ENTRY_CALLS", "C13_ERR_CONSUMERS",
+                    "C13_INSTR_VARIANTS", "C13_FUEL_ARMS", "C13_TRACKER_SITES", "C13_NESTED_FNS"])
     r.lean_prove("MJ.Props.C13", "MJ/Audit/C13.lean", extra_targets=["drive_c13"])
+    check_feature_matrix(r)
     exe = r.cargo_build("c13")
     if exe is None:
         return
-    rc, out, err = r.harness(exe, ["gen", r.tier])
-    if rc != 0:
-        r.broken.append(f"harness c13 exited {rc}: {err[-300:]}")
+    out = run_sharded(r, exe)
+    if out is None:
         return
     progs = parse(out)
     lines = r.driver("drive_c13", driver_input(progs))
@@ -392,6 +604,13 @@ def run(r):
             r.sample({"id": p["id"], "templates": p["templates"], "thr": res["thr"], "unlimited": res["unl"],
                       "runs_first": res["runs"][:3], "runs_last": res["runs"][-2:]})
     check_groups(r, progs)
+    # the instruction names the hook reports are variants of the Instruction enum as extracted
+    variants = {row[0] for row in (status["items"].get("C13_INSTR_VARIANTS") or [])}
+    seen = {name for _, _, res in progs for name in res.get("trace", "").split()}
+    if variants and not seen <= variants:
+        r.broken.append(f"executed instructions that are not variants of the extracted Instruction enum: {sorted(seen - variants)[:5]}")
+    r.extra["instruction_variants_executed"] = f"{len(seen & variants)} of {len(variants)}"
+    r.extra["instruction_variants_never_executed"] = sorted(variants - seen)
     r.extra["programs"] = len(progs)
     r.extra["programs_with_threshold"] = sum(1 for _, _, res in progs if res.get("thr") is not None)
 
@@ -401,6 +620,13 @@ def replay(r, path):
     exe = r.cargo_build("c13")
     for case in [d.get("case")] + d.get("more_cases", []):
         if not case:
+            continue
+        if case.startswith("features="):
+            import common
+            print("cd", common.REPO, "&& cargo check --offline -p minijinja --no-default-features --features", case[9:])
+            rc, out, err = common.sh(["cargo", "check", "--offline", "-q", "-p", "minijinja", "--no-default-features", "--features", case[9:]],
+                                     cwd=common.REPO, env=dict(common.ENV, CARGO_TARGET_DIR=os.path.join(common.BUILD, "cargo-c13cfg")))
+            print("rc =", rc, err[-600:])
             continue
         rc, out, err = r.harness(exe, ["one", case])
         progs = parse(out)
